@@ -69,7 +69,8 @@ fn seed() -> u64 {
 fn worker(id: &str, tier: Tier, k: u64, n: u64, out: &str) {
     let p = props::registry().into_iter().find(|p| p.id == id).unwrap_or_else(|| usage());
     drive::silence_panics();
-    let budget = tier.pick(p.budget_s.0, p.budget_s.1);
+    // the second attempt (every run on a thread of its own) is several times slower by construction
+    let budget = tier.pick(p.budget_s.0, p.budget_s.1) * if drive::fresh_mode() { 10 } else { 1 };
     crumb::install(&format!("{out}.crumb"), tier.pick(10, 30));
     let mut c = Ctx::new(id, tier, k, n, seed(), budget);
     c.snapshot_path = Some(out.to_string());
@@ -104,7 +105,7 @@ fn check(id: &str, tier: Tier) -> i32 {
         std::thread::available_parallelism().map(|n| n.get() as u64).unwrap_or(8).min(16)
     });
     let n = if p.single_worker { 1 } else { n };
-    let budget = tier.pick(p.budget_s.0, p.budget_s.1);
+    let budget = tier.pick(p.budget_s.0, p.budget_s.1) * if drive::fresh_mode() { 10 } else { 1 };
     let mut children = Vec::new();
     for k in 0..n {
         let out = work.join(format!("w{k}.json"));
